@@ -158,7 +158,15 @@ class MasterDriver:
         self.labels = ['_default'] + ['part%d' % i for i in range(1, rng.randint(1, 2))]
         self.H.labels = list(self.labels)
         self.traits_on = rng.random() < 0.5
-        self.zkutils.put(zk, z.path.traits(), TRAITS)
+        # the cell's declared trait list: all of them, or a subset (servers then report undeclared traits, which
+        # the loader adds on the fly), possibly listing one trait twice
+        self.declared = list(TRAITS)
+        if rng.random() < 0.5:
+            self.declared = rng.sample(TRAITS, rng.randint(1, 3))
+            if rng.random() < 0.4:
+                self.declared.insert(rng.randrange(len(self.declared) + 1), rng.choice(self.declared))
+        self.known_traits = set(self.declared)      # traits the master can have a code for (declared or seen on a server)
+        self.zkutils.put(zk, z.path.traits(), self.declared)
         for lb in self.labels[1:]:
             self.zkutils.put(zk, z.path.partition(lb), {})
         depth = rng.choice([1, 1, 2])
@@ -221,6 +229,7 @@ class MasterDriver:
         label = rng.choice(self.labels)
         parent = rng.choice(self.leaf_parents)
         traits = [t for t in TRAITS if self.traits_on and rng.random() < 0.4]
+        self.pending_known = getattr(self, 'pending_known', set()) | set(traits)
         cap = self.gen_cap()
         self.api.create_server(self.admin, name, parent, label)
         rec = self._server_record(name, cap, label, parent, traits)
@@ -283,6 +292,7 @@ class MasterDriver:
     def op_server_traits(self, name):
         zs = self.Z['servers'][name]
         traits = [t for t in TRAITS if self.rng.random() < 0.4]
+        self.pending_known = getattr(self, 'pending_known', set()) | set(traits)
         zs['rec']['traits'] = traits
         zs['traits'] = traits
         if self.zkutils.update(self.admin, self.z.path.server(name), zs['rec'], check_content=True):
@@ -318,12 +328,23 @@ class MasterDriver:
 
     def op_blacklist(self):
         rng = self.rng
-        bl = []
-        for an in self.appnames:
-            if rng.random() < 0.12:
-                bl.append(an)
-        if rng.random() < 0.15:
-            bl.append(rng.choice(self.proids) + '.*')
+        bl = list(self.Z['blacklist'])
+        mode = rng.choice(['fresh', 'add', 'add', 'add-overlap', 'remove', 'remove', 'clear'])
+        if mode == 'fresh':
+            bl = [an for an in self.appnames if rng.random() < 0.12]
+            if rng.random() < 0.3:
+                bl.append(rng.choice(self.proids) + '.*')
+        elif mode == 'add':
+            bl.append(rng.choice(self.appnames + [p + '.*' for p in self.proids]))
+        elif mode == 'add-overlap':
+            # a wildcard and an exact entry matching the same application
+            an = rng.choice(self.appnames)
+            bl += [an, an.split('.')[0] + '.*']
+        elif mode == 'remove' and bl:
+            bl.remove(rng.choice(bl))
+        elif mode == 'clear':
+            bl = []
+        bl = sorted(set(bl), key=bl.index)
         self.zkutils.put(self.admin, self.z.BLACKEDOUT_APPS, bl)
         self.api.create_event(self.admin, 0, 'apps_blacklist', None)
         self.Z['blacklist'] = bl
@@ -347,7 +368,7 @@ class MasterDriver:
                            'memory': spell_mb(rng, res[0]), 'cpu': celldrv.spell_cpu(rng, res[1]),
                            'disk': spell_mb(rng, res[2]), 'rank': rank, 'rank_adjustment': adj,
                            'max_utilization': rng.choice([None, None, None, 100, 2, 1.5, 1, 0.5, 0]),
-                           'traits': [rng.choice(TRAITS)] if self.traits_on and rng.random() < 0.2 else [],
+                           'traits': [rng.choice(sorted(self.known_traits))] if self.traits_on and self.known_traits and rng.random() < 0.25 else [],
                            'assignments': []}
                     for an in self.appnames:
                         if an not in used_patterns and rng.random() < 0.25:
@@ -428,6 +449,22 @@ class MasterDriver:
         for a, p in upd.items():
             self.Z['apps'][a]['man']['priority'] = p
         self.ops.append(('prio', upd))
+
+    def op_plant_duplicate(self):
+        """Stored state of a master (of any version) that died between creating a moved instance's record and
+        deleting the old one: the instance is recorded under two servers when the next master starts."""
+        z = self.z
+        servers = [s for s in self.srv.children(z.PLACEMENT) if s in self.Z['servers']]
+        cands = [(s, a) for s in servers for a in self.srv.children(z.path.placement(s))]
+        if not cands or len(servers) < 2:
+            return False
+        s, a = self.rng.choice(cands)
+        other = self.rng.choice([x for x in servers if x != s])
+        data = self.zkutils.get_default(self.admin, z.path.placement(s, a))
+        self.zkutils.put(self.admin, z.path.placement(other, a), data)
+        self.ops.append(('plant_duplicate', a, s, other))
+        self.mon.count('planted_duplicates')
+        return True
 
     def op_running(self):
         """Node agents register /running/<instance> for what is placed on them."""
@@ -604,10 +641,15 @@ class MasterDriver:
                 n += 1
         return n
 
+    def _learn_traits(self):
+        self.known_traits |= getattr(self, 'pending_known', set())
+        self.pending_known = set()
+
     def settle_delivery(self):
         for _ in range(4):
             if not self.deliver():
                 break
+        self._learn_traits()
 
     # ------------------------------------------------------------------
     def sync_H(self):
